@@ -674,6 +674,7 @@ def c07(ix: Index) -> None:
     redisp = {ev for ev, n in cnt.items() if n > 1}
     fin = ix.final['events']
     dup_pairs = {pair for pair, n in collections.Counter((a, d) for a, d, _p in sc.get('fwd', [])).items() if n > 1}
+    late_reg = {r['k_']: r['seq'] for r in ix.R if r['k'] == 'on_fwd'}
     for ev, t in ix.evtype.items():
         firsts = [(r['seq'], b, r['by']) for (e, b), r in ix.accepted.items() if e == ev]
         if not firsts:
@@ -702,19 +703,34 @@ def c07(ix: Index) -> None:
             if path_m is not None and path_m != want_m and not ix.mk.get(ev, {}).get('prepath'):
                 ix.v('C07', 'event-path', None, ev=ev, path=path_m, want=want_m, redispatched=True)
             continue
-        reach, st = {entry}, [entry]
-        while st:
-            x = st.pop()
-            for a, d, p in sc.get('fwd', []):
-                if a == x and pat_matches(p, t) and d not in reach:
-                    reach.add(d)
-                    st.append(d)
+        def closure(with_optional: bool) -> set:
+            out, todo = {entry}, [entry]
+            while todo:
+                x = todo.pop()
+                edges = [(a, d, p) for a, d, p in sc.get('fwd', [])]
+                # forwards attached while the program runs count for this event if they were registered before bus a accepted it;
+                # registered between acceptance and the start of a's processing they may or may not apply
+                acc = ix.accepted.get((ev, x))
+                pb = ix.procs_by.get((ev, x), [])
+                for k_, (a, d, p) in enumerate(sc.get('late_fwd', [])):
+                    reg = late_reg.get(k_)
+                    if a != x or reg is None or acc is None:
+                        continue
+                    if reg < acc['seq'] or (with_optional and pb and reg < pb[0]['b']['seq']):
+                        edges.append((a, d, p))
+                for a, d, p in edges:
+                    if a == x and pat_matches(p, t) and d not in out:
+                        out.add(d)
+                        todo.append(d)
+            return out
+        reach = closure(False)
+        reach_max = closure(True) if sc.get('late_fwd') else reach
         ix.C['c07_events'] += 1
         if len(reach) > 1:
             ix.C['c07_forwarded_events'] += 1
         counts = collections.Counter(b for (e, b), lst in ix.procs_by.items() if e == ev for _ in lst)
         got = set(counts)
-        if got != reach:
+        if not (reach <= got <= reach_max):
             ix.v('C07', 'reach-set', None, ev=ev, entry=entry, want=sorted(reach), got=sorted(got))
         for b, n in counts.items():
             if n != 1:
@@ -728,7 +744,7 @@ def c07(ix: Index) -> None:
         if len(oids) > 1:
             ix.v('C07', 'different-objects', None, ev=ev, n=len(oids))
         # results of all buses' handlers accumulate on the event
-        want_res = collections.Counter(f'B{b}.h{hi}' for b in reach for hi in ix.handlers_for(ev, b))
+        want_res = collections.Counter(f'B{b}.h{hi}' for b in (got if reach <= got <= reach_max else reach) for hi in ix.handlers_for(ev, b))
         got_res = collections.Counter(x['hid'] for x in fin.get(ev, {}).get('results', []) if '.h' in x['hid'])
         if want_res != got_res:
             ix.v('C07', 'results-accumulate', None, ev=ev, want=dict(want_res), got=dict(got_res))
@@ -1657,6 +1673,8 @@ def _payload_eq(got, want, _dt) -> bool:
             return _dt.datetime.fromisoformat(got.replace('Z', '+00:00')) == _dt.datetime.fromisoformat(want['$dt'])
         except Exception:
             return False
+    if isinstance(want, dict) and set(want) == {'$utf8'}:
+        return got == want['$utf8']  # a bytes value holding valid UTF-8 is written as that text (and reads back as the same bytes)
     if isinstance(want, dict):
         return isinstance(got, dict) and list(got.keys()) == list(want.keys()) and all(_payload_eq(got[k], want[k], _dt) for k in want)
     if isinstance(want, list):
